@@ -236,7 +236,8 @@ def expand_brackets(s: str) -> str:
             if m and m.end() == start + 1:
                 factor = int(m.group('factor'))
                 matchstart = m.start('factor')
-                s = s[0:matchstart] + (factor - 1) * (s[start + 1:p] + ',') + s[start + 1:p] + s[p + 1:]
+                # The bracket's contents written factor times (which is nothing at all for a factor of zero).
+                s = s[0:matchstart] + ','.join([s[start + 1:p]] * factor) + s[p + 1:]
             else:
                 raise ValueError(f"Failed to parse '{s}'.")
     return s
